@@ -156,10 +156,22 @@ def jsonl_cases(rng, n, maxlines):
             path = os.path.join(d, "f.jsonl")
             with open(path, "wb") as f:
                 f.write(data)
-            for mode, bsz in itertools.product(("rb",) if "badutf8" in kinds else ("r", "rb"), (0, 4096) if big else (0, 1, 2, 3, 5, 8, 4096)):
+            modes = ("rb",) if "badutf8" in kinds else ("r", "rb")
+            try:
+                # the same text in a single-byte codec, read in text mode with that codec
+                with open(os.path.join(d, "f.latin1"), "wb") as f:
+                    f.write(data.decode("utf-8").encode("latin-1"))
+                modes = modes + ("r-latin1",) if "badutf8" not in kinds else modes
+            except UnicodeError:
+                pass
+            for mode, bsz in itertools.product(modes, (0, 4096) if big else (0, 1, 2, 3, 5, 8, 4096)):
                 runs += 1
                 try:
                     kw = {} if mode == "rb" else {"encoding": "utf-8"}
+                    if mode == "r-latin1":
+                        mode, kw, path = "r", {"encoding": "latin-1"}, os.path.join(d, "f.latin1")
+                    else:
+                        path = os.path.join(d, "f.jsonl")
                     with open(path, mode, **kw) as f:
                         fwd = list(jsonutils.JSONLIterator(f, ignore_errors=ignore))
                     f = open(path, mode, **kw)
